@@ -23,6 +23,9 @@ import (
 type c03Reg struct {
 	Method  string `json:"m"`
 	Pattern string `json:"p"`
+	// NilHandler: the registration carries a nil handler. The statement does not say whether it is
+	// accepted; whatever Handle answers, the later answers must follow from the accepted routes only.
+	NilHandler bool `json:"nil,omitempty"`
 }
 
 type c03Route struct {
@@ -77,6 +80,7 @@ type c03Table struct {
 	// custom fallback handlers installed through SetNotFoundHandler / SetNotAllowedHandler
 	useNF, useNA bool
 	sawNF, sawNA bool
+	nilAccepted  bool
 }
 
 func (tb *c03Table) installFallbacks(nf, na bool) {
@@ -127,6 +131,14 @@ func (tb *c03Table) register(m *vk.M, desc func() string, reg c03Reg) {
 		}
 	}
 	id = len(tb.routes)
+	if reg.NilHandler {
+		err := tb.rt.Handle(reg.Method, reg.Pattern, nil)
+		if err == nil && wantErr == "" {
+			tb.nilAccepted = true // unspecified: the table is not judged any further
+		}
+		m.Count("nil_handler_registrations", 1)
+		return
+	}
 	err := tb.rt.Handle(reg.Method, reg.Pattern, h(id))
 	switch {
 	case wantErr != "" && err == nil:
@@ -349,6 +361,16 @@ func c03GenTable(r interface{ Intn(int) int }) []c03Reg {
 		}
 		regs = append(regs, reg)
 	}
+	// a registration attempt with a nil handler - somewhere, or as the very first attempt for the method of a
+	// later registration (a rejected attempt must leave no trace in the 404/405/Allow partition)
+	switch r.Intn(8) {
+	case 0:
+		k := r.Intn(len(regs))
+		regs = append([]c03Reg{{Method: regs[k].Method, Pattern: c03GenPattern(r), NilHandler: true}}, regs...)
+	case 1:
+		k := r.Intn(len(regs))
+		regs = append(regs[:k:k], append([]c03Reg{{Method: c03Methods[r.Intn(len(c03Methods))], Pattern: regs[k].Pattern, NilHandler: true}}, regs[k:]...)...)
+	}
 	return regs
 }
 
@@ -431,7 +453,7 @@ func TestVerifC03Router(t *testing.T) {
 		for _, reg := range regs[:half] {
 			tb.register(m, desc, reg)
 		}
-		if half < len(regs) && m.ViolCount() == v0 {
+		if half < len(regs) && m.ViolCount() == v0 && !tb.nilAccepted {
 		early:
 			for i, p := range extra {
 				for _, method := range reqMethods {
@@ -448,7 +470,10 @@ func TestVerifC03Router(t *testing.T) {
 		for _, reg := range regs[half:] {
 			tb.register(m, desc, reg)
 		}
-		if m.ViolCount() == v0 {
+		if tb.nilAccepted {
+			m.Count("tables_with_accepted_nil_handler_not_judged", 1)
+		}
+		if m.ViolCount() == v0 && !tb.nilAccepted {
 		loop:
 			for _, ps := range [][]string{paths, extra} {
 				for _, p := range ps {
